@@ -49,11 +49,14 @@ void harness(void) {
     lens[t] = L[t];
     for (int i = 0; i < L[t]; i++) {
       /* token kinds (cell): 0 = every byte symbolic; 1 = "--" then symbolic bytes; 2 = 'x' then symbolic bytes;
-       * 3 = the concrete flag group "-abc"; 4 = the concrete flag group "-aaa" (same flag repeated) */
+       * 3 = the concrete flag group "-abc"; 4 = the concrete flag group "-aaa" (same flag repeated);
+       * 5 = the first L bytes of the concrete text "--a=b"; 6 = the first L bytes of the concrete text "pq" */
       int sym = K[t] == 0 || ((K[t] == 1 && i >= 2) || (K[t] == 2 && i >= 1));
       if (sym) { toks[t * TOKW + i] = in_u8(); ASSUME(toks[t * TOKW + i] != 0); }
       else if (K[t] == 1) toks[t * TOKW + i] = '-';
       else if (K[t] == 2) toks[t * TOKW + i] = 'x';
+      else if (K[t] == 5) toks[t * TOKW + i] = (uint8_t)"--a=b"[i];
+      else if (K[t] == 6) toks[t * TOKW + i] = (uint8_t)"pq"[i];
       else toks[t * TOKW + i] = (i == 0) ? '-' : (K[t] == 3 ? (uint8_t)('a' + i - 1) : 'a');
     }
   }
